@@ -5,6 +5,7 @@
 -/
 import PsutilModel.Proofs.C01Args
 namespace Psutil.C01
+variable {nt : Bool}
 open Spec
 
 /-- psutil calls never change the kernel -/
@@ -33,7 +34,7 @@ theorem run_dead {c : Cfg} (pid g : Nat) (h : List Ev) : ∀ (s : St), g < s.ker
       exact ih _ (by rw [hk]; exact hg) (by rw [hk]; exact hd)
 
 /-- all objects of an invariant state share the one frozen boot time -/
-theorem shared_boot {clk : Nat} {s : St} (h : Inv clk s) {i j : Nat} {a b : PObj}
+theorem shared_boot {clk : Nat} {s : St} (h : Inv nt clk s) {i j : Nat} {a b : PObj}
     (ha : s.ps.objs[i]? = some a) (hb : s.ps.objs[j]? = some b) :
     ∃ B, ObjOK clk s.kern B a ∧ ObjOK clk s.kern B b := by
   obtain ⟨B, hB, hoa⟩ := h.ps.objs a (List.mem_of_getElem? ha)
@@ -64,7 +65,7 @@ theorem step_status_out (c : Cfg) (s : St) {i : Nat} {a : PObj} (ha : s.ps.objs[
     (step c s (.c (.status i))).2 = .status (statusWord s.kern a) := by
   simp [step, ha]
 
-theorem ownZombie_of_find {k : Kernel} (hk : KInv k) {o : PObj} {x : Inst} (hf : k.find o.pid = some x)
+theorem ownZombie_of_find {k : Kernel} (hk : KInv nt k) {o : PObj} {x : Inst} (hf : k.find o.pid = some x)
     (hs : x.start = o.ghost) : ownZombie k o = some x.zombie := by
   unfold ownZombie
   have hxm := List.mem_of_find?_eq_some hf
@@ -85,7 +86,7 @@ theorem step_processIter (c : Cfg) (s : St) :
       = ({ s with ps := (processIter c s.kern s.ps).1 }, .procs (processIter c s.kern s.ps).2) := rfl
 
 /-- the status word `str(p)` may show for an object in an invariant state -/
-theorem statusWord_spec {clk : Nat} {k : Kernel} {B : Nat} {o : PObj} (hk : KInv k) (hok : ObjOK clk k B o) :
+theorem statusWord_spec {clk : Nat} {k : Kernel} {B : Nat} {o : PObj} (hk : KInv nt k) (hok : ObjOK clk k B o) :
     ((statusWord k o = .terminated ∨ statusWord k o = .reusedTerminated) → ¬ Listed k o)
     ∧ (Listed k o → ∃ x, k.find o.pid = some x ∧ x.start = o.ghost
         ∧ statusWord k o = if x.zombie then .zombie else .alive) := by
